@@ -728,7 +728,7 @@ func genStrProg(r *lib.RNG, L int) string {
 	sv := func() string { return "s" + lib.N(r.Intn(3)) }
 	nonstr := []string{"123", "-4.5", "'c'", "true", "[1, 2]", "{a: 1}", "undefined", "b0", "error(s1)", "1234567890123", "arr", "m", "immutable([s0])"}
 	vals := []string{"12345678", "1.25", "b0", "[s0, s1]", "{k: s0}", "error(s0)", "'x'", "true", "arr", "m", "-9007199254740993", "1e100", "[[s1], {q: s2}]"}
-	fmts := []string{"%s", "%v", "%q", "%x", "%X", "%d", "%5d", "%-6s|", "%08.3f", "%c", "%t", "%10s", "%v%v", "%s-%s", "%5.2s", "% x", "%#x", "%T", "%e", "%08d", "%+d", "%U", "%b", "%o", "%#v", "%6.2f", "%x%x"}
+	fmts := []string{"%s", "%v", "%q", "%x", "%X", "%d", "%5d", "%-6s|", "%08.3f", "%c", "%t", "%10s", "%v%v", "%s-%s", "%5.2s", "% x", "%#x", "%T", "%e", "%08d", "%+d", "%U", "%b", "%o", "%#v", "%6.2f", "%x%x", "%d%%", "%s%%%%", "%z", "%!", "%[2]s%[1]s", "%*d", "%.3s|%c"}
 	args := []string{"s0", "s1", "s2", "b0", "12345", "-7", "3.14159", "'z'", "true", "arr", "m", "e", "[s0]", "{k: s1}"}
 	n := 3 + r.Intn(8)
 	for i := 0; i < n; i++ {
